@@ -546,3 +546,39 @@ def posts_nth(k, idsel, lim=410):
     if n and W.posts[-1]["headers"].get("Mcp-Session-Id", W.posts[-1]["headers"].get("mcp-session-id")) != "sess":
         return "session-header-lost-on-a-long-connection"
     return "ok"
+
+
+def posts_bounded(k, cap, idsel, form):
+    """back-pressure: the read stream holds at most `cap` unread messages and the reader is late (it takes what is
+    buffered only when the transport has to wait for room).  n earlier requests were answered, then one more:
+    exactly the server's messages are delivered, none invented.  form 0: JSON bodies, 1: SSE bodies with a
+    notification before each response"""
+    from harness.stdio_fake import BoundedRec
+
+    n = _sizes.pick(_sizes.size_cases(12), k)
+    rid = pick_id(idsel)
+    if rid is None:
+        return "ok"
+    W.plan, W.posts = [], []
+    t = make_transport()
+    t._incoming_send = BoundedRec(cap)
+    exp = []
+    ids = ["w%d" % i for i in range(n)] + [rid]
+    for i, x in enumerate(ids):
+        r = {"jsonrpc": "2.0", "id": x, "result": {"i": i}}
+        if form == 0:
+            exp.append(r)
+            W.plan.append(("resp", FakeResponse(200, {"Content-Type": "application/json"}, _json.dumps(r).encode())))
+        else:
+            note = {"jsonrpc": "2.0", "method": "notifications/message", "params": {"i": i}}
+            exp += [note, r]
+            body = "data: " + _json.dumps(note) + "\n\n" + "event: message\ndata: " + _json.dumps(r) + "\n\n"
+            W.plan.append(("resp", FakeResponse(200, {"Content-Type": "text/event-stream"}, body.encode())))
+    for x in ids:
+        drive(t._send_message_via_http({"jsonrpc": "2.0", "id": x, "method": "ping"}))
+    delivered = [dump(m) for m in t._incoming_send.items]
+    if len(delivered) != len(exp):
+        return "messages-lost-or-invented-under-back-pressure:%d" % (len(delivered) - len(exp))
+    if not same_json(delivered, exp):
+        return "delivered-messages-differ-under-back-pressure"
+    return "ok"
